@@ -272,6 +272,13 @@ def lazy_parallel_map(
             # and is useless.
             terminate(executor, q)
             raise
+        except BaseException:
+            if backend == "mp":
+                # Leaving the context of a pathos pool does not stop the
+                # submitted tasks: they would keep running after the exception
+                # has been delivered.
+                terminate(executor, q)
+            raise
 
 
 def single_thread_prefetch(
